@@ -93,6 +93,35 @@ def run(chk):
     for x, y in ((0, 0), (255, 255), (3, 4), (252, 3)):
         evs.append(["chip", x, y, 3, word_bytes(regions.get_region_for_chip(x, y))])
     traces.append(dict(ev=evs))
+    # ---- job R: insertion orders chosen by TLC's simulator (RegionsSim) are replayed into the real tree; the
+    # observable after every few insertions is judged like any other result
+    from .. import tlc as tlcmod
+    from ..core import MachineryError
+    import re
+    r = tlcmod.run_tlc("RegionsSim", "RegionsSim.cfg", workers=1, timeout=600,
+                       simulate="num=%d" % chk.pick(60, 600), depth=70, seed=chk.seed + 1)
+    chk.jobs.append(dict(job="S", module="RegionsSim", cfg="RegionsSim.cfg", **r.summary()))
+    if not r.ok or not r.infos:
+        raise MachineryError("simulation of RegionsSim failed: %s" % (r.error or "no behaviour printed"))
+    ox, oy = 16 * rng.randrange(16), 16 * rng.randrange(16)        # where the 16x16 area sits in the machine
+    for line in sorted(set(r.infos)):
+        order = [tuple(int(v) for v in m) for m in re.findall(r"<<(\d+), (\d+), (\d+)>>", line)]
+        tree = regions.RegionCoreTree()
+        sofar = {}
+        evs = []
+        for n, (b, c, p) in enumerate(order, 1):
+            x, y = ox + 4 * (b % 4) + c % 4, oy + 4 * (b // 4) + c // 4
+            tree.add_core(x, y, p)
+            sofar.setdefault((x, y), set()).add(p)
+            if n % 8 == 0 or n == len(order):
+                pairs = sorted(tree.get_regions_and_coremasks())
+                tg = [[tx, ty, sorted(cs)] for (tx, ty), cs in sorted(sofar.items())]
+                evs.append(["ff", tg, [word_bytes(w) + [int(mk)] for w, mk in pairs]])
+        traces.append(dict(ev=evs, label="tlc-simulated insertion order"))
+        chk.replayed += 1
+        chk.note_case(("order", order[:12]))
+    chk.extra["tlc_simulated_behaviours_replayed_into_impl"] = chk.replayed
+
     chk.rule = ("target sets: sparse random; full, one-chip-short, mixed-core and two-core 4x4 / 16x16 / 64x64 blocks at "
                 "aligned and straddling positions; cores 16/17; dense random 9x9 windows; empty set; random "
                 "get_region_for_chip calls at all four levels. non-trivial = more than one target chip; distinct = "
